@@ -63,6 +63,7 @@ def plan(tier, seed):
     for h in ("h_levels", "h_levels_two_columns", "h_list_shape", "h_list_shape_types", "h_map_shape"):
         jobs.append(ch("C15", "vf/pyshim/h_schema.py", h, t, ["schema.SchemaHelper", "schema._is_list_like",
                                                              "schema._is_map_like"]))
+    jobs.append(ch("C15", "vf/pyshim/h_page.py", "h_read_page_consumes", 60, ["core._read_page"]))
     extra = dict(
         explanation="The real record-assembly function cencoding._assemble_objects is lifted mechanically from the "
                     ".pyx (types stripped, C integer assignments wrapped to their width, memoryview indexing given the "
